@@ -90,3 +90,29 @@ extern "C" void h_cmpgram_flags(void) {
   if (ok) verif_assert(in.db.decoded_size() <= (int64_t)in.n, "no read past the end");
   verif_reach();
 }
+
+// ---- orientation flags of the portable tex-coord decoder: bounded by the declared number of corners
+#include "draco/attributes/geometry_attribute.cc"
+#include "draco/attributes/point_attribute.cc"
+#include "draco/core/data_buffer.cc"
+#include "draco/core/draco_types.cc"
+#include "draco/compression/attributes/prediction_schemes/mesh_prediction_scheme_tex_coords_portable_decoder.h"
+struct CountMD2 {
+  typedef CountTable CornerTable;
+  const CountTable *t; std::vector<int32_t> v2d;
+  const CountTable *corner_table() const { return t; }
+  const std::vector<int32_t> *vertex_to_data_map() const { return &v2d; }
+  const std::vector<CornerIndex> *data_to_corner_map() const { return nullptr; }
+  bool IsInitialized() const { return true; }
+};
+extern "C" void h_texcoords_orient(void) {
+  In in; in.init();
+  CountTable ct; ct.nc = nondet_i32(); verif_assume(ct.nc >= 0 && ct.nc <= MAXCORNERS);
+  verif_input_len = in.n + (uint64_t)ct.nc;       // stream length + declared number of corners
+  CountMD2 md; md.t = &ct;
+  PredictionSchemeWrapDecodingTransform<int32_t> tr;
+  MeshPredictionSchemeTexCoordsPortableDecoder<int32_t, PredictionSchemeWrapDecodingTransform<int32_t>, CountMD2> dec(nullptr, tr, md);
+  const bool ok = dec.DecodePredictionData(&in.db);
+  if (ok) verif_assert(in.db.decoded_size() <= (int64_t)in.n, "no read past the end");
+  verif_reach();
+}
